@@ -334,6 +334,11 @@ func firstBlockOf(start uint64, served []simnode.Served, fallback uint64) uint64
 		return start
 	}
 	if start == 0 {
+		// the pair asks for the hash of the block before its first one; when a step starts over (all positions
+		// unwound) it looks the head up again, so the last such lookup counts
+		if n, ok := lastHashLookup(served); ok && n+1 <= fallback {
+			return n + 1
+		}
 		for _, s := range served {
 			if !s.Poller && s.Method == "eth_getBlockByNumber" && s.Arg == "latest" && s.Failed == "" && len(s.Blocks) == 1 && s.Blocks[0].Num <= fallback {
 				return s.Blocks[0].Num
